@@ -3,6 +3,7 @@
 devtools/seed_agent_prompt_template.txt, listing the seeds of earlier rounds kept under seeded/ (summary only)."""
 import glob, json, os, sys
 rnd = sys.argv[1]
+N = int(sys.argv[2]) if len(sys.argv) > 2 else 3
 tpl = open("/verif/devtools/seed_agent_prompt_template.txt").read()
 for line in open("/verif/properties.jsonl"):
     p = json.loads(line)
@@ -10,7 +11,7 @@ for line in open("/verif/properties.jsonl"):
     tag = pid + rnd
     wt = f"/tmp/seed_{tag}"
     prop = (f"{pid}: {p['title']}\n\nStatement: {p['statement']}\n\nQuantified over: {p['quantifier']['text']}\n\nCode anchors: " + ", ".join(p["anchors"]["files"]))
-    txt = tpl.format(WT=wt, PROP=prop, N=3, TAG=tag, PID=pid)
+    txt = tpl.format(WT=wt, PROP=prop, N=N, TAG=tag, PID=pid)
     earlier = []
     for d in sorted(glob.glob(f"/verif/seeded/{pid}[a-z]_*")):
         m = json.load(open(os.path.join(d, "meta.json")))
